@@ -197,6 +197,60 @@ def did_you_mean_shapes(quick):
     return out
 
 
+def round4_shapes(quick):
+    """round-4 reviewer: a struct name defined twice where only some of the definitions close a by-value cycle,
+    generic functions whose instances multiply, and the program-wide call-site counter"""
+    import itertools
+    out = []
+    defs = {"A": "struct A { x: int, b: B }", "B1": "struct B { z: int, a: A }", "B2": "struct B { y: int }"}
+    for i, perm in enumerate(itertools.permutations(defs)):
+        out.append((f"dupstruct-cycle-perm-{i}", ("\n".join(defs[k] for k in perm) + "\nprint(1)").encode()))
+    fixed = {
+        "self-first": "struct A { a: A }\nstruct A { x: int }\nprint(1)",
+        "self-last": "struct A { x: int }\nstruct A { a: A }\nprint(1)",
+        "three-cycle-dup-middle": "struct A { b: B }\nstruct B { c: C }\nstruct C { a: A }\nstruct B { y: int }\nprint(1)",
+        "three-cycle-dup-last": "struct A { b: B }\nstruct B { c: C }\nstruct C { a: A }\nstruct C { y: int }\nprint(1)",
+        "both-duplicated": "struct A { b: B }\nstruct B { a: A }\nstruct A { x: int }\nstruct B { y: int }\nprint(1)",
+        "both-duplicated-crossed": "struct A { x: int }\nstruct B { a: A }\nstruct A { b: B }\nstruct B { y: int }\nprint(1)",
+        "triple": "struct B { a: A }\nstruct A { b: B }\nstruct B { a: A, y: int }\nstruct B { y: int }\nprint(1)",
+        "used": "struct A { x: int, b: B }\nstruct B { z: int, a: A }\nstruct B { y: int }\nlet b = B { y: 1 }\nlet a = A { x: 1, b: b }\nprint(a.b.y)",
+        "different-sizes": "struct P { a: i8 }\nstruct P { a: i64, b: i8 }\nstruct Q { h: i8, p: P }\nprint(1)",
+        "in-function": "struct A { x: int, b: B }\nstruct B { z: int, a: A }\nstruct B { y: int }\nfn f(b: B) -> int { return b.y }\nprint(f(B { y: 2 }))",
+        "nested-four": "struct A { b: B }\nstruct B { c: C }\nstruct C { d: D }\nstruct D { a: A }\nstruct D { y: int }\nstruct C { y: int }\nprint(1)",
+    }
+    out += [(f"dupstruct-{k}", v.encode()) for k, v in fixed.items()]
+    # instances of a generic function: one new type per round (linear), two (doubling), three, through a second function
+    wrap = {"array": "let {v} = [x]", "lambda": "let {v} = fn(y: int) -> T {{ return x }}", "vec": "let {v} = Vec[x]", "pair": "let {v} = [[x]]",
+            "lambda2": "let {v} = fn() -> T {{ return x }}"}
+    for n, ks in (("one", ["array"]), ("two", ["array", "lambda"]), ("two-arrays", ["array", "pair"]), ("three", ["array", "lambda", "vec"]),
+                  ("four", ["array", "lambda", "vec", "lambda2"])):
+        lets = "\n    ".join(wrap[k].format(v=f"v{i}") for i, k in enumerate(ks))
+        calls = " + ".join(f"f(v{i}, n - 1)" for i in range(len(ks)))
+        for start in (3, 12):
+            out.append((f"mono-growth-{n}-{start}", (f"fn f<T>(x: T, n: int) -> int {{\n    if n == 0 {{ return 0 }}\n    {lets}\n    return {calls}\n}}\n"
+                                                      f"fn main() -> int {{ return f(1, {start}) }}\nprint(main())").encode()))
+    out += [
+        ("mono-growth-mutual", b"fn f<T>(x: T, n: int) -> int {\n    if n == 0 { return 0 }\n    return g([x], n - 1) + g(fn() -> T { return x }, n - 1)\n}\n"
+                               b"fn g<U>(y: U, n: int) -> int {\n    if n == 0 { return 0 }\n    return f([y], n - 1)\n}\nprint(f(1, 3))"),
+        ("mono-growth-two-params", b"fn f<T, U>(x: T, y: U, n: int) -> int {\n    if n == 0 { return 0 }\n    return f([x], y, n - 1) + f(x, [y], n - 1)\n}\nprint(f(1, 2, 3))"),
+        ("mono-growth-swap", b"fn f<T, U>(x: T, y: U, n: int) -> int {\n    if n == 0 { return 0 }\n    return f(y, [x], n - 1) + f([y], x, n - 1)\n}\nprint(f(1, 2.0, 3))"),
+        ("mono-growth-no-base-case", b"fn f<T>(x: T) -> int {\n    return f([x]) + f(fn() -> T { return x })\n}\nprint(1)"),
+    ]
+    # the call-site counter is program wide (u16); the VM has its own, lower, slot limit
+    for n in (4095, 4096, 4097, 65535, 65536, 66000) if quick else (255, 256, 4095, 4096, 4097, 32767, 32768, 65534, 65535, 65536, 65537, 66000, 131072):
+        out.append((f"many-call-sites-{n}", ("fn g(x) { return x }\n" + "g(1)\n" * n).encode()))
+    out.append(("many-call-sites-in-functions-66000", ("fn g(x) { return x }\n" + "".join(f"fn h{i}() {{\n" + "g(1)\n" * 330 + "}\n" for i in range(200)) + "print(1)").encode()))
+    out.append(("many-call-sites-in-lambdas-66000", ("fn g(x) { return x }\n" + "".join(f"let h{i} = fn() {{\n" + "g(1)\n" * 330 + "}\n" for i in range(200)) + "print(1)").encode()))
+    out.append(("many-call-sites-nested-args-66000", ("fn g(x) { return x }\n" + ("g(g(g(g(g(g(g(g(g(g(1))))))))))\n" * 6600)).encode()))
+    # flat programs whose inference links one type variable per statement (run with a 1 MiB stack by the CLI driver)
+    for n in (1000, 3000):
+        out.append((f"var-chain-module-arg-{n}", ("needs std.math\nfn g(x) { return x }\n" + "g(math.abs(1))\n" * n).encode()))
+        out.append((f"var-chain-native-result-{n}", ("needs std.math\nlet mut a = math.abs(1)\nfn g(x) { return x }\n" + "a = g(math.abs(a))\n" * n).encode()))
+        out.append((f"var-chain-lambda-arg-{n}", ("needs std.math\nlet g = fn(x) { x }\n" + "g(math.sqrt(4.0))\n" * n).encode()))
+    out.append(("many-call-sites-module-4097", ("needs std.math\nfn g(x) { return x }\n" + "g(math.abs(1))\n" * 4097).encode()))
+    return out
+
+
 def structured_source(quick):
     out = []
     depths = [10, 100, 250, 1000, 10000] + ([] if quick else [100000])
@@ -250,6 +304,7 @@ def structured_source(quick):
             (f"far-column-wide-span-{col}", ("print(" + "a" * col + ")").encode()),
             (f"far-column-after-multibyte-{col}", ('let s = "' + "\u00e9" * col + '"; print(undefined_thing)').encode()),
         ]
+    out += round4_shapes(quick)
     out += infinite_type_shapes(quick)
     out += did_you_mean_shapes(quick)
     big = 20000 if quick else 1000000
@@ -609,6 +664,13 @@ def lex_tie(ctx, exe, inputs, wd):
     ctx.cov["evaluations"] += len(cases)
 
 
+def limits_small_stack():
+    """1 MiB stack: for inputs that must need O(1) native stack however long they are (a long flat program); the
+    8 MiB default only overflows on inputs that take minutes to analyse"""
+    limits()
+    resource.setrlimit(resource.RLIMIT_STACK, (1 << 20, 1 << 20))
+
+
 def limits():
     resource.setrlimit(resource.RLIMIT_AS, (4 << 30, 4 << 30))
     resource.setrlimit(resource.RLIMIT_STACK, (8 << 20, 8 << 20))
@@ -619,15 +681,15 @@ CONFIRMED_HANGS = collections.Counter()
 DIAG = collections.Counter()      # diagnostics (error codes) the CLI answered with: which limits the streams reach
 
 
-def run_cli(cli, args, wd, timeout=20):
+def run_cli(cli, args, wd, timeout=20, small_stack=False):
     try:
-        p = subprocess.run([cli] + args, stdout=subprocess.PIPE, stderr=subprocess.PIPE, timeout=timeout, cwd=wd, preexec_fn=limits)
+        p = subprocess.run([cli] + args, stdout=subprocess.PIPE, stderr=subprocess.PIPE, timeout=timeout, cwd=wd, preexec_fn=limits_small_stack if small_stack else limits)
         err = p.stderr.decode("utf-8", "replace")
         rc = p.returncode
     except subprocess.TimeoutExpired:
         key = args[0]
         if timeout < 100 and CONFIRMED_HANGS[key] < 2:
-            r = run_cli(cli, args, wd, timeout=timeout * 8)     # slow machine or really stuck?
+            r = run_cli(cli, args, wd, timeout=timeout * 8, small_stack=small_stack)     # slow machine or really stuck?
             if r == "timeout":
                 CONFIRMED_HANGS[key] += 1
             return r
@@ -663,6 +725,9 @@ def input_class(kind, label, data):
             return "infinite-type"
         if label.startswith("didyoumean-"):
             return "did-you-mean"
+        m = re.match(r"(dupstruct|mono-growth|many-call-sites|var-chain)-", label)
+        if m:
+            return m.group(1)
         base = re.sub(r"-\d+$", "", label)
         return "expr-expected-at-eof" if re.fullmatch(r"open-(paren|call|bracket|index|if)-at-eof", base) else base
     if kind == "source" and (data.rstrip().endswith((b"(", b"[")) or re.search(rb"(^|[^A-Za-z0-9_])if\s*$", data)) and nesting_depth(data) < 150:
@@ -887,7 +952,7 @@ def run(ctx):
             for cname, args in cmds:
                 if CONFIRMED_HANGS[args[0]] >= 2 and not structured:
                     continue          # this command already hung twice at 160 s: reported; do not spend the run on repeats
-                res = run_cli(cli, args, wd)
+                res = run_cli(cli, args, wd, small_stack=label.startswith("var-chain-"))
                 cstats[f"{kind}:{cname}:{res.split(':')[0]}"] += 1
                 ctx.cov["evaluations"] += 1
                 if res not in ("ok", "err"):
